@@ -159,7 +159,9 @@ def plan(p0, thorough):
         top = L[0] + 40000
         add(top, 4, why="forward jump")
         for pn in range(top - 33000, top):
-            add(pn, 2, why="late burst (33000 >= 2^15 packets below the largest)")
+            # a conforming sender uses a 2-byte number only inside the window top + 1 - 2^15 < pn (RFC 9000
+            # 17.1 / A.2); the oldest packets of the burst lie below it and carry 4 bytes
+            add(pn, 2 if pn > top + 1 - 32768 else 4, why="late burst (33000 >= 2^15 packets below the largest)")
         for k in range(5):
             add(L[0] + 1, 2, why="in order, 2-byte packet number after the long late burst (what aioquic's own sender emits)")
     return steps
